@@ -107,3 +107,51 @@ Example stale_after_insert_rejected :
   assign_ids printed = Ok printed /\ assign_ids edited = Err.
 Proof. split; reflexivity. Qed.
 Print Assumptions assign_idempotent.
+
+(* ---- module level ---- *)
+Lemma parser_number_is_llvm l : (forall g, In g l -> it_value (g_item g) = true) -> forall k,
+  map g_item (parser_number l k) = llvm_number (map g_item l) k.
+Proof.
+  induction l as [|g r IH]; intros Hv k; cbn [parser_number map llvm_number]; [reflexivity|].
+  rewrite (Hv g (or_introl eq_refl)). cbn [andb].
+  destruct (negb (it_named (g_item g))); cbn [map g_item]; rewrite IH by (intros x Hx; apply Hv; right; exact Hx); reflexivity.
+Qed.
+
+Lemma parser_number_values l : (forall g, In g l -> it_value (g_item g) = true) -> forall k g,
+  In g (parser_number l k) -> it_value (g_item g) = true.
+Proof.
+  induction l as [|x r IH]; intros Hv k g; cbn [parser_number]; [contradiction|].
+  destruct (negb (it_named (g_item x))); cbn [In]; intros [<-|H].
+  - cbn. apply Hv. left; reflexivity.
+  - eapply IH; [intros y Hy; apply Hv; right; exact Hy|exact H].
+  - apply Hv. left; reflexivity.
+  - eapply IH; [intros y Hy; apply Hv; right; exact Hy|exact H].
+Qed.
+Lemma group_order_in l g : In g (group_order l) -> In g l.
+Proof. unfold group_order, of_gkind. rewrite !in_app_iff, !filter_In. tauto. Qed.
+
+(* printing never fails on a module the parser produced, whatever the textual interleaving of named
+   and unnamed global variables, aliases, ifuncs and functions, and leaves the numbering as parsed;
+   that numbering is LLVM's for the printed order (k-th unnamed definition gets @k) *)
+Theorem print_after_parse_ok l : (forall g, In g l -> it_value (g_item g) = true) ->
+  print_after_parse l = Ok (map g_item (parse_module l))
+  /\ map g_item (parse_module l) = llvm_number (map g_item (group_order (parser_number l 0))) 0.
+Proof.
+  intros Hv. unfold print_after_parse, parse_module.
+  assert (forall g, In g (group_order (parser_number l 0)) -> it_value (g_item g) = true) as Hg.
+  { intros g H. apply group_order_in in H. eapply parser_number_values; eassumption. }
+  rewrite (parser_number_is_llvm _ Hg 0). split; [|reflexivity]. unfold assign_ids.
+  destruct (assign_spec (llvm_number (map g_item (group_order (parser_number l 0))) 0) 0) as [H1 _].
+  rewrite H1 by apply llvm_number_consistent. rewrite llvm_number_idem. reflexivity.
+Qed.
+
+(* KF-13 as it was before the fix: an unnamed function before an unnamed global variable (numbered
+   @0, @1 textually) was accepted by the parser and then rejected by the printer's group-order walk *)
+Theorem print_after_parse_unfixed_refuted :
+  exists l, (forall g, In g l -> it_value (g_item g) = true) /\ print_after_parse_unfixed l = Err.
+Proof.
+  exists [ {| g_kind := KFunc; g_item := {| it_named := false; it_id := 0; it_value := true |} |};
+           {| g_kind := KGlobal; g_item := {| it_named := false; it_id := 0; it_value := true |} |} ].
+  split; [|reflexivity]. intros g [<-|[<-|[]]]; reflexivity.
+Qed.
+Print Assumptions print_after_parse_ok.
